@@ -152,6 +152,21 @@ PROPS = {
         "not_decided": ["equality of values for collection shapes (C20 capture/apply)", "feedback inside nested graphs beyond C09 delegation",
                         "quiescence with a passive reader as a whole-run statement (only the selectors are proved)"],
     },
+    "C01": {
+        "modules": ["contracts.c02_graph_sched", "contracts.c06_wiring", "contracts.c01_rank"],
+        "level": "exploration",
+        "design_ref": "DESIGN.md section 0.2 / section 8, C01",
+        "trusted_base": [
+            "the oracle of the bounded ranking check (native/bounded/c01_ranking.cpp): dependency digraph computed from the program text",
+            "GraphView dispatch to evaluate_impl / schedule_node_impl through the ops table",
+            "node evaluation callbacks change the schedule only through schedule_node_impl (rely R, lemma in c02_graph_sched)",
+        ],
+        "assumptions": ["the ranking pass is checked on bounded wiring programs only (stated bound); nothing is claimed for larger graphs, "
+                        "nested sub-graph boundaries, services, delayed bindings or push sources in the ranking pass"],
+        "not_decided": ["build_ranked_graph as a proof (Kahn sort: pending-edge counting is outside the VC generator)",
+                        "ranking of nested sub-graph boundary nodes, captured outer ports, delayed bindings, push-source priority",
+                        "reads through references retargeted at run time (C13)"],
+    },
     "C10": {
         "modules": ["contracts.c10_map"],
         "level": "proof",
